@@ -1,10 +1,13 @@
 import Woodpile.Driver.Util
 import Woodpile.Driver.ReadN
+import Woodpile.Driver.RoughTlv
 
 open Woodpile.Driver
 
 def families : List (String × Family) := [
   ("readn", ReadNFam.family)
+  , ("tlv", RoughTlvFam.family)
+  , ("tlvview", RoughTlvFam.viewFamily)
 ]
 
 def main (args : List String) : IO UInt32 := do
